@@ -45,7 +45,7 @@ def outline_own_effective(feature, rule, outline):
 
 def step_status_for(outcome, wip):
     return {
-        "pass": "passed", "nest": "passed", "abort": "passed", "fail": "failed", "raise": "error", "interrupt": "error",
+        "pass": "passed", "takes": "passed", "nest": "passed", "abort": "passed", "fail": "failed", "raise": "error", "interrupt": "error",
         "raise_timeout": "error", "raise_notimpl": "error",
         "convert": "error", "convert_key": "error", "undefined": "undefined", "skip": "skipped",
         "pending": "pending_warn" if wip else "pending",
@@ -169,9 +169,15 @@ def simulate(program, deselected=None):
         if stop:
             state["stopped"] = True
 
+    import re as _re
+    name_res = [_re.compile(p) for p in cfg.get("names") or []]
+
     def is_selected(feature, inst):
         if inst["name"] in deselected:
             return False
+        if name_res and not any(r.search(inst["name"]) for r in name_res):
+            return False        # --name: only scenarios whose name matches one of the patterns run (containers are entered
+                                # as the tags say; the others are skipped without hooks)
         if ("feature", feature["name"]) in ref.skipped_by_hook:
             return False
         if inst["rule"] is not None and ("rule", inst["rule"]["name"]) in ref.skipped_by_hook:
